@@ -506,18 +506,34 @@ func namespaceDefaulted(r *Report, p *Program, rule string) {
 		for _, b := range loop.BodyBlocks() {
 			for _, in := range b.Instrs {
 				c, isC := in.(*ssa.Call)
-				if !isC || !isCallTo(in, "builtin.append") || !engine.DependsOnValue(c.Common().Args[1], loop.Val, nil) {
+				if !isC || !isCallTo(in, "builtin.append") || !engine.DependsOnValue(c.Common().Args[1], loop.Val, func(k string) bool { return strings.HasPrefix(k, engine.ModPrefix) }) {
 					continue
 				}
 				n++
 				w := engine.Query{Fn: f, From: []engine.Point{{B: loop.Body}}, Target: func(x ssa.Instruction) bool { return x == in },
 					CutInstr: func(x ssa.Instruction) bool {
 						ci, isCI := x.(ssa.CallInstruction)
-						if !isCI || !strings.HasSuffix(engine.CallKey(ci.Common()), "Unstructured.SetNamespace") {
+						if !isCI {
 							return false
 						}
 						a := ci.Common().Args
-						return len(a) == 2 && engine.SameValue(a[0], loop.Val) && E(a[1]) == "call(unstructured.Unstructured.GetNamespace)(p1)"
+						if strings.HasSuffix(engine.CallKey(ci.Common()), "Unstructured.SetNamespace") {
+							return len(a) == 2 && engine.SameValue(a[0], loop.Val) && E(a[1]) == "call(unstructured.Unstructured.GetNamespace)(p1)"
+						}
+						// a module helper (child, namespace) that leaves no path on which the child keeps an empty namespace
+						if g := engine.StaticFn(ci.Common()); g != nil && strings.HasPrefix(FK(g), engine.ModPrefix) && len(g.Blocks) > 0 && len(a) == 2 && len(g.Params) == 2 &&
+							engine.SameValue(a[0], loop.Val) && E(a[1]) == "call(unstructured.Unstructured.GetNamespace)(p1)" {
+							return engine.Query{Fn: g, Target: func(y ssa.Instruction) bool { _, isR := y.(*ssa.Return); return isR },
+								CutInstr: func(y ssa.Instruction) bool {
+									yc, isYC := y.(ssa.CallInstruction)
+									return isYC && strings.HasSuffix(engine.CallKey(yc.Common()), "Unstructured.SetNamespace") && len(yc.Common().Args) == 2 &&
+										yc.Common().Args[0] == ssa.Value(g.Params[0]) && yc.Common().Args[1] == ssa.Value(g.Params[1])
+								},
+								CutEdge: func(_ *ssa.BasicBlock, _ int, l *Lit) bool {
+									return l != nil && !l.Pos && l.Atom == `(call(unstructured.Unstructured.GetNamespace)(p0) == "")`
+								}}.Find() == nil
+						}
+						return false
 					},
 					CutEdge: func(bb *ssa.BasicBlock, i int, l *Lit) bool {
 						return l != nil && !l.Pos && l.Atom == `(call(unstructured.Unstructured.GetNamespace)(`+E(loop.Val)+`) == "")`
@@ -548,7 +564,13 @@ func gvkFromDeclaredVersion(r *Report, p *Program, rule string) {
 		ok := true
 		for _, b := range f.Blocks {
 			if rt, isR := b.Instrs[len(b.Instrs)-1].(*ssa.Return); isR {
-				if !engine.MustDependOnCall(engine.RetVal(rt, 0), func(k string) bool { return strings.HasSuffix(k, "discovery.APIResource.GroupVersion") }, func(k string) bool { return strings.Contains(k, "schema.GroupVersion.With") }) {
+				through := func(k string) bool { return strings.Contains(k, "schema.GroupVersion.With") || strings.HasSuffix(k, "schema.ParseGroupVersion") }
+				viaGV := engine.MustDependOnCall(engine.RetVal(rt, 0), func(k string) bool { return strings.HasSuffix(k, "discovery.APIResource.GroupVersion") }, through)
+				viaField := engine.MustSlice(engine.RetVal(rt, 0), func(x ssa.Value) bool {
+					fa, isFA := x.(*ssa.FieldAddr)
+					return isFA && fieldName(fa) == "APIVersion"
+				}, through)
+				if !viaGV && !viaField {
 					ok = false
 				}
 			}
